@@ -21,7 +21,8 @@ EXPLANATION = (
     "C16-c); (e) no axis mismatch or index-space event anywhere on the fit / predict path of any estimator, for int and "
     "None batch sizes and every GEMINI registry name. Not decided: termination and finite arithmetic.")
 ASSUMPTIONS = ["installed package sources/stubs under /venv describe the API that runs", "numpy shape semantics of gcverif/e3_numpy.py"]
-ADOPT = [("C12", ["C12-a"], "a hyper-parameter that the constructor drops is silently replaced by the parent's default"),
+ADOPT = [("C02", ["C02-f"], "a batch of one sample (batch_size = 1 or a trailing batch) makes all clusters coincide: without the zero-distance masks the MMD gradient is NaN and fit returns NaN probabilities"),
+         ("C12", ["C12-a"], "a hyper-parameter that the constructor drops is silently replaced by the parent's default"),
          ("C17", ["C17-e"], "an overflowing exponential turns predict_proba rows into NaN, which are not probability vectors"),
          ("C15", ["C15-b"], "Douglas probabilities are products of the soft bin memberships: they must be probability vectors")]
 
@@ -54,6 +55,8 @@ def run(pm, ctx):
 
     ctx.rule("C04-c", "labels_/predict/predict_proba/score/n_iter_/optimiser must be wired to the same forward function", floor=60)
     ctx.rule("C04-e", "shape soundness of the whole fit and predict path for any batch size", floor=40)
+    ctx.rule("C04-f", "drawing without replacement never asks for more items than the population holds (numpy raises ValueError otherwise)", floor=1)
+    sample_sizes(pm, ctx)
     te = TableEval(pm)
     names = sorted(te.imported_str_set("gemclus.gemini._utils", "AVAILABLE_GEMINIS"))
     for K in pm.concrete_estimators():
@@ -116,6 +119,60 @@ def run(pm, ctx):
                                   site=f"{site}: score")
     wiring(pm, ctx)
     run_containment(pm, ctx, te, "C04-d")
+
+
+def sample_sizes(pm, ctx):
+    import ast as _a
+    from ..match import size_aliases, normalise_sizes, resolve_expr, cfg_node, canon_equal
+    from ..flow import CFG
+    n_sites = 0
+    for u in pm.units.values():
+        if u.is_pyx:
+            continue
+        for f in [n for n in _a.walk(u.tree) if isinstance(n, _a.FunctionDef)]:
+            calls = [c for c in _a.walk(f) if isinstance(c, _a.Call) and isinstance(c.func, _a.Attribute) and c.func.attr == "choice"
+                     and any(k.arg == "replace" and isinstance(k.value, _a.Constant) and k.value.value is False for k in c.keywords)]
+            if not calls:
+                continue
+            al = size_aliases(f)
+            cfg = CFG(f)
+            for c in calls:
+                n_sites += 1
+                site = f"{u.relpath}:{f.name}: {norm_src(c)[:60]}"
+                pop = c.args[0] if c.args else None
+                size = next((k.value for k in c.keywords if k.arg == "size"), c.args[1] if len(c.args) > 1 else None)
+                if pop is None or size is None:
+                    ctx.unrecognised("C04-f", site, "population / size argument")
+                    continue
+                st = cfg_node(cfg, c)
+                P = normalise_sizes(resolve_expr(cfg, st, pop), al)
+                S = normalise_sizes(resolve_expr(cfg, st, size), al)
+
+                def bounded(e):
+                    """True: e <= P provable; False: e is bounded by another size only; None: unknown"""
+                    if canon_equal(e, P):
+                        return True
+                    if isinstance(e, _a.IfExp):
+                        rs = [bounded(e.body), bounded(e.orelse)]
+                        return True if all(r is True for r in rs) else (False if any(r is False for r in rs) else None)
+                    if isinstance(e, _a.Call) and norm_src(e.func) in ("min", "np.minimum") and e.args:
+                        if any(canon_equal(a, P) for a in e.args):
+                            return True
+                        sizes = [a for a in e.args if ".shape[" in norm_src(a)]
+                        return False if sizes else None
+                    if isinstance(e, _a.Constant) and e.value == 1:
+                        return True
+                    return None
+                r = bounded(S)
+                if r is True:
+                    ctx.ok("C04-f", site, f"size {norm_src(S)[:50]} <= population {norm_src(P)[:30]}")
+                elif r is False:
+                    ctx.violation("C04-f", u.relpath, f.name, norm_src(c)[:140], f"the number of items drawn without replacement, `{norm_src(S)[:80]}`, is not bounded by the population "
+                                  f"`{norm_src(P)}` (it is clamped by another size): a legal value above the population makes fit raise ValueError", line=c.lineno, site=site)
+                else:
+                    ctx.unrecognised("C04-f", site, f"cannot relate size `{norm_src(S)[:60]}` to the population `{norm_src(P)[:30]}`")
+    if n_sites == 0:
+        ctx.ok("C04-f", "no draw without replacement in the package")
 
 
 def wiring(pm, ctx):
@@ -304,4 +361,12 @@ def controls(pm, tier):
                 return {u.relpath: replace_node(u, n.test, 'self.solver == "adam"')}
         return None
     out.append({"name": "solver test inverted", "rule": "C04-c", "apply": swapped_solver})
+
+    def clamp_by_samples(pm_):
+        u = pm_.unit("gemclus.tree.kauri")
+        a = "max_features = min(X.shape[1], max(self.max_features, 1)) if self.max_features is not None else X.shape[1]"
+        if a not in u.src:
+            return None
+        return {u.relpath: u.src.replace(a, "max_features = min(n, max(self.max_features, 1)) if self.max_features is not None else X.shape[1]", 1)}
+    out.append({"name": "max_features clamped by the number of samples", "rule": "C04-f", "apply": clamp_by_samples})
     return out
